@@ -8,7 +8,7 @@
    guarantee (u64 addresses, u32 sizes/depths) plus "fewer than 2^32-1 INLINE ranges per FUNC". *)
 From Coq Require Import Lia Sorting.Permutation.
 From RM Require Import C08.Model C08.Proofs C11.Model C11.Proofs1 C11.Proofs2 C11.Proofs3 C11.Proofs4 C11.Proofs5 C11.Proofs6 C11.Proofs7.
-From RM Require C09.Model C09.Grammar C09.Driver C11.Text C11.Text2 C11.Text3.
+From RM Require C09.Model C09.Grammar C09.Driver C11.Text C11.Text2 C11.Text3 C11.Driver.
 From RM Require Import C11.Proofs8 C11.Proofs9 C11.Proofs10.
 From RM Require Gen.C11Sym C11.Tie.
 Open Scope Z_scope.
@@ -381,10 +381,7 @@ Theorem c11_parser_records_in_range : forall (ds : list (bool * Grammar.rle)) q,
   RM.C09.Model.replay Grammar.rle Grammar.pst Grammar.recog_pst Grammar.bump_pst Grammar.lineno_pst
                       Grammar.init_pst ds = inl q ->
   Text3.pst_rng (RM.C09.Model.size Grammar.rle Grammar.cllen (map snd ds)) q.
-Proof.
-  intros ds q H.
-  exact (Text3.replay_rng ds 0 Grammar.init_pst q (Z.le_refl 0) Text3.init_pst_rng H).
-Qed.
+Proof. exact Text3.replay_rng0. Qed.
 Print Assumptions c11_parser_records_in_range.
 
 (* Every byte string that parses.  [bytes] is any byte string shorter than 2^32-1 bytes, split at
@@ -419,6 +416,22 @@ Theorem c11_from_parse : forall nm tg (lines : list Grammar.rle) (tail : Z) (sch
       fill_symbol p (Text2.symtab_of_table nm tg t) mbase instr = symbolize p (Text2.raw_of_pst nm tg q) mbase instr.
 Proof. exact Text3.from_parse. Qed.
 Print Assumptions c11_from_parse.
+
+(* What the text front-end of the correspondence driver computes ([Driver.table_of_text], extracted and run on the
+   same .sym text the real parser reads): for ANY list of decisions (line recognised / line dropped as over-long)
+   that C09's recogniser accepts, total length < 2^32-1, it returns a table, and symbolication on it IS [symbolize]
+   on the records of the text.  The OCaml glue checks exactly this equality on every generated file (answers from the
+   text = answers from the records), with nm = the number inside the rendered name and tg = the prologue size. *)
+Theorem c11_text_driver_correct : forall nm tg (ds : list (bool * Grammar.rle)) q,
+  RM.C09.Model.replay Grammar.rle Grammar.pst Grammar.recog_pst Grammar.bump_pst Grammar.lineno_pst
+                      Grammar.init_pst ds = inl q ->
+  RM.C09.Model.size Grammar.rle Grammar.cllen (map snd ds) < two32 - 1 -> Text3.enc_names_ok nm tg q ->
+  exists st, RM.C11.Driver.table_of_text nm tg ds = Ret (Some st) /\
+    wf_file (Text2.raw_of_pst nm tg q) /\ st_rel true (Text2.raw_of_pst nm tg q) st /\
+    forall p mbase instr, 0 <= mbase -> instr < two64 ->
+      fill_symbol p st mbase instr = symbolize p (Text2.raw_of_pst nm tg q) mbase instr.
+Proof. exact Text3.text_driver_correct. Qed.
+Print Assumptions c11_text_driver_correct.
 
 (* The first clause of the property, stated of the bytes: fill_symbol on the table parsed from the
    bytes never panics, reports nothing below the module, and a reported function is a FUNC block of
@@ -500,9 +513,7 @@ Theorem c11_inlinee_lookup_exact : forall fr d x,
   (forall c c', nearest (kept fr) d x c -> nearest (kept fr) d x c' -> c = c') /\
   forall c, nearest (kept fr) d x c ->
     get_inlinee_at_depth (fn_inls (fin_func true fr)) d x = Ret (giad_check d x c).
-Proof.
-  intros fr d x. split; [apply nearest_exists|]. split; [apply nearest_unique|apply inlinee_lookup_exact].
-Qed.
+Proof. exact inlinee_lookup_exact_all. Qed.
 Print Assumptions c11_inlinee_lookup_exact.
 
 (* The inline frames, with the chain given declaratively, for ALL files (overlapping INLINE ranges and
